@@ -177,6 +177,9 @@ func finish(c *Ctx, verifDir, prop, tier string, seed int, results []ruleResult,
 		nd := 0
 		var sites []string
 		for _, o := range res.obs {
+			if os.Getenv("OTTOCHECK_DUMP") != "" {
+				fmt.Fprintf(os.Stderr, "OB %s %s %s | %s\n", o.Status, o.Key, o.Site, o.Detail)
+			}
 			total++
 			if o.status == Discharged {
 				if os.Getenv("OTTOCHECK_VERBOSE") != "" {
